@@ -10,7 +10,8 @@ from . import kdcommon as kc
 META = {
     "rule": "one case = (CRS, point cloud, container, resolution | shape | both given up-front, antimeridian mode). Clouds: "
             "random / curved-swath / single-row / with NaN and 1e30, interior extremes (NaN scan edges, pole inside), crossing "
-            "+-180; containers: numpy tuple, dask tuple, SwathDefinition (2-D); resolutions scalar / tuple (exact class: powers "
+            "+-180 (EPSG:4326 and, suite antimeridian-crs, geographic CRSs given as EPSG code / PROJ string / dict / WKT / CRS object, with a "
+            "world-wide, a regional or no area of use in the PROJ database, positions taken in the requested CRS); containers: numpy tuple, dask tuple, SwathDefinition (2-D); resolutions scalar / tuple (exact class: powers "
             "of two on a geographic CRS); shapes >= 2x2. Non-trivial: cloud has >= 3 finite points not all on a line and at "
             "least one NaN, or crosses the antimeridian. Distinct = distinct canonical input.",
     "assumptions": ["projected positions of the points are obtained by the harness with the same pyproj transformation "
@@ -175,13 +176,40 @@ def check(ctx, cname, crs, lon, lat, container, mode, value, ckind):
     ctx.count(f"container.{container}")
 
 
-def suite_antimeridian(ctx):
+def _geographic_pool(ctx):
+    """geographic CRSs with Greenwich as prime meridian, in the forms a caller may hold them: EPSG codes (world-wide and regional datums),
+    PROJ strings / dicts that pyproj maps back to an EPSG code, and definitions that are in no database (bare ellipsoid, sphere, custom
+    axes), as text, dict and CRS object.  -> [(name, crs, area of use of the CRS as PROJ knows it: global / regional / none)]"""
+    import pyproj
+    pool = [("EPSG:4326", "EPSG:4326"), ("OGC:CRS84", "OGC:CRS84"), ("longlat_datum_wgs84", {"proj": "longlat", "datum": "WGS84"}),
+            ("longlat_ellps_wgs84", "+proj=longlat +ellps=WGS84 +no_defs"), ("longlat_sphere", "+proj=longlat +R=6371228 +no_defs"),
+            ("longlat_grs80_dict", {"proj": "longlat", "ellps": "GRS80"}), ("longlat_a_b", "+proj=longlat +a=6378137 +b=6356752.3"),
+            ("longlat_bessel", "+proj=longlat +ellps=bessel"), ("longlat_sphere_crs_object", pyproj.CRS("+proj=longlat +R=6370997")),
+            ("longlat_ellps_wgs84_wkt", pyproj.CRS("+proj=longlat +ellps=WGS84").to_wkt()),
+            ("EPSG:4269 (NAD83)", "EPSG:4269"), ("longlat_datum_nad83", "+proj=longlat +datum=NAD83"), ("EPSG:4258 (ETRS89)", "EPSG:4258")]
+    out = []
+    for nm, crs in pool:
+        with warnings.catch_warnings():
+            warnings.simplefilter("ignore")
+            c = pyproj.CRS(crs)
+            code = c.to_epsg()
+            aou = (pyproj.CRS.from_epsg(code) if code else c).area_of_use
+        kind = "none" if aou is None else ("global" if aou.west <= -180 and aou.east >= 180 else "regional")
+        out.append((nm, crs, kind))
+    return out
+
+
+def suite_antimeridian(ctx, pool=None, n_clouds=None, suite="antimeridian"):
+    """data over +-180 frozen on a geographic CRS in every antimeridian mode.  pool=None: EPSG:4326 only; otherwise the clouds go round
+    the CRSs of `pool` ((name, crs, area-of-use kind) from _geographic_pool) and positions are taken in the requested CRS"""
     from pyresample.geometry import DynamicAreaDefinition
     r = ctx.rng
-    for _ in range(24 if ctx.quick else 200):
+    for k_cloud in range((24 if ctx.quick else 200) if n_clouds is None else n_clouds):
+        cname, crs, aou_kind = ("EPSG:4326", "EPSG:4326", "global") if pool is None else pool[k_cloud % len(pool)]
+        spread = 8 if pool is None else r.choice([3, 8, 15])
         n = r.randrange(4, 30)
         lat0 = r.uniform(-60, 60)
-        lon = np.array([((180 + r.uniform(-8, 8)) + 180) % 360 - 180 for _ in range(n)])
+        lon = np.array([((180 + r.uniform(-spread, spread)) + 180) % 360 - 180 for _ in range(n)])
         lon[0], lon[1] = 179.0 + r.random() * 0.9, -179.9 + r.random() * 0.9
         if r.random() < 0.3:
             lon[2] = 180.0
@@ -194,16 +222,20 @@ def suite_antimeridian(ctx):
         lon_all = lon.copy()
         fin = np.isfinite(lon) & np.isfinite(lat)
         lon, lat = lon[fin], lat[fin]
+        # positions of the data in the requested CRS (EPSG:4326: the lon/lats themselves)
+        xs, ys = (lon, lat) if pool is None else _project(crs, lon, lat)
         for amode in ("modify_extents", "modify_crs", "global_extents"):
             for mode, value in (("resolution", r.choice([0.25, 0.5, 1.0])), ("shape", (r.randrange(2, 14), r.randrange(2, 30)))):
                 container = r.choice(["numpy", "dask", "swath"])
-                inp = {"crs": "EPSG:4326", "antimeridian_mode": amode, "container": container, mode: value if mode != "shape" else list(value),
+                inp = {"crs": cname if pool is None else f"{cname}: {crs if isinstance(crs, (str, dict)) else crs.to_proj4()}"[:160], "antimeridian_mode": amode, "container": container, mode: value if mode != "shape" else list(value),
                        "lon_range": [float(lon.min()), float(lon.max())], "n": n, "has_180": bool((lon == 180.0).any()), "has_nan": has_nan}
+                if pool is not None:
+                    inp.update({"crs_area_of_use": aou_kind, "lon": [float(v) for v in lon_all], "lat": [float(v) for v in lat2.ravel()]})
                 try:
                     with warnings.catch_warnings():
                         warnings.simplefilter("ignore")
-                        area = DynamicAreaDefinition("d", "d", "EPSG:4326").freeze(_wrap(container, lon2.copy(), lat2.copy()),
-                                                                                     antimeridian_mode=amode, **{mode: value})
+                        area = DynamicAreaDefinition("d", "d", crs).freeze(_wrap(container, lon2.copy(), lat2.copy()),
+                                                                             antimeridian_mode=amode, **{mode: value})
                         ix, iy = area.get_array_indices_from_lonlat(lon, lat)
                 except Exception as e:  # noqa
                     ctx.fail("DynamicAreaDefinition.freeze", f"raised {type(e).__name__}: {e}", inp, size=n)
@@ -213,9 +245,10 @@ def suite_antimeridian(ctx):
                 if amode == "global_extents":
                     if not (ext[0] <= -180 + 1e-9 and ext[2] >= 180 - 1e-9) or (mode == "shape" and (abs(ext[0] + 180) > 1e-9 or abs(ext[2] - 180) > 1e-9)):
                         probs.append(f"global_extents: x extent is ({ext[0]}, {ext[2]}) instead of the full -180..180")
-                    inside = [(-180 <= lo <= 180) for lo in lon]
+                    if not (ext[0] <= xs.min() + 1e-9 and xs.max() <= ext[2] + 1e-9):
+                        probs.append(f"global_extents: x extent ({ext[0]}, {ext[2]}) does not contain the data ({float(xs.min())} .. {float(xs.max())})")
                 elif amode == "modify_extents":
-                    w = lon % 360
+                    w = xs % 360
                     if not (ext[0] <= w.min() + 1e-9 and w.max() <= ext[2] + 1e-9):
                         probs.append("modify_extents: extent does not contain every longitude modulo 360")
                     if ext[2] - ext[0] > 60:
@@ -223,11 +256,28 @@ def suite_antimeridian(ctx):
                 else:
                     if "pm" not in str(area.crs.to_dict()) and area.crs.prime_meridian.longitude == 0:
                         probs.append("modify_crs: the CRS prime meridian was not moved")
-                    w = (lon % 360) - 180
+                    w = (xs % 360) - 180
                     if not (ext[0] <= w.min() + 1e-9 and w.max() <= ext[2] + 1e-9):
                         probs.append("modify_crs: extent does not contain every longitude in the shifted CRS")
-                if not (ext[1] <= lat.min() + 1e-9 and lat.max() <= ext[3] + 1e-9):
+                if not (ext[1] <= ys.min() + 1e-9 and ys.max() <= ext[3] + 1e-9):
                     probs.append("latitudes not contained")
+                if pool is not None:
+                    # "in the requested CRS": the area's own CRS puts every point where the requested one does (modify_crs: 180 degrees further
+                    # west), on the same ellipsoid
+                    import pyproj
+                    with warnings.catch_warnings():
+                        warnings.simplefilter("ignore")
+                        xa, ya = _project(area.crs, lon, lat)
+                        want_crs = pyproj.CRS(crs)
+                    shift = 180.0 if amode == "modify_crs" else 0.0
+                    if not area.crs.is_geographic:
+                        probs.append(f"the area is not in a geographic CRS: {area.crs.to_proj4()}")
+                    elif not (np.allclose((xa - xs + shift + 180) % 360 - 180, 0, rtol=0, atol=1e-9) and np.allclose(ya, ys, rtol=0, atol=1e-9)):
+                        probs.append(f"the area is not in the requested CRS: its CRS {area.crs.to_proj4()} puts the points elsewhere")
+                    elif (abs(area.crs.ellipsoid.semi_major_metre - want_crs.ellipsoid.semi_major_metre) > 1e-6
+                          or abs(area.crs.ellipsoid.semi_minor_metre - want_crs.ellipsoid.semi_minor_metre) > 1e-6):
+                        probs.append(f"the area is not in the requested CRS: ellipsoid {area.crs.ellipsoid.semi_major_metre} / {area.crs.ellipsoid.semi_minor_metre} "
+                                     f"instead of {want_crs.ellipsoid.semi_major_metre} / {want_crs.ellipsoid.semi_minor_metre}")
                 # modify_extents documents that x runs past 180: points are contained modulo 360 (checked above), the
                 # plain lon/lat lookup is only required to work for the other two modes
                 if amode != "modify_extents" and (np.ma.getmaskarray(ix).any() or np.ma.getmaskarray(iy).any()):
@@ -243,7 +293,7 @@ def suite_antimeridian(ctx):
                     rep = ctx.M.ask("anti", 180 if amode == "modify_crs" else 0, ["nan" if np.isnan(v) else Fraction(float(v)) for v in lon_all]).split()
                     # corner centres from the model -> through the model's domain computation
                     xmin, xmax = Fraction(rep[0]), Fraction(rep[1])
-                    ymin, ymax = Fraction(float(lat.min())), Fraction(float(lat.max()))
+                    ymin, ymax = Fraction(float(ys.min())), Fraction(float(ys.max()))
                     rep2 = (ctx.M.ask("res", xmin, ymin, xmax, ymax, Fraction(value), Fraction(value)) if mode == "resolution"
                             else ctx.M.ask("shape", xmin, ymin, xmax, ymax, value[0], value[1]))
                     t = rep2.split()
@@ -254,14 +304,19 @@ def suite_antimeridian(ctx):
                         if not near and (max(abs(a - b) for a, b in zip(ext, mext)) > 1e-9 or (int(t[4]), int(t[5])) != (area.width, area.height)):
                             ctx.disagree("antimeridian", inp, {"extent": ext, "shape": [area.height, area.width]}, {"extent": mext, "shape": [int(t[5]), int(t[4])]})
                 elif ctx.M and amode == "global_extents":
-                    ymin, ymax = Fraction(float(lat.min())), Fraction(float(lat.max()))
+                    ymin, ymax = Fraction(float(ys.min())), Fraction(float(ys.max()))
                     rep2 = (ctx.M.ask("fullres", -180, 180, 0, ymin, 0, ymax, Fraction(value), Fraction(value)) if mode == "resolution"
                             else ctx.M.ask("fullshape", -180, 180, 0, ymin, 0, ymax, value[0], value[1]))
                     t = rep2.split()
                     if not rep2.startswith("err") and (abs(float(Fraction(t[0])) - ext[0]) > 1e-9 or abs(float(Fraction(t[2])) - ext[2]) > 1e-9
                                                        or (int(t[4]), int(t[5])) != (area.width, area.height)):
                         ctx.disagree("global_extents", inp, {"extent": ext, "shape": [area.height, area.width]}, rep2)
-                ctx.case("antimeridian", (amode, mode, str(value), container, float(lon.sum())), nontrivial=True, sample={"input": inp, "extent": ext})
+                if pool is None:
+                    ctx.case("antimeridian", (amode, mode, str(value), container, float(lon.sum())), nontrivial=True, sample={"input": inp, "extent": ext})
+                else:
+                    ctx.case(suite, (cname, amode, mode, str(value), container, float(lon.sum())), nontrivial=True,
+                             sample={"input": {k_: v_ for k_, v_ in inp.items() if k_ not in ("lon", "lat")}, "extent": ext})
+                    ctx.count(f"{suite}.area_of_use.{aou_kind}")
 
 
 def suite_wide_and_histories(ctx):
@@ -476,3 +531,6 @@ def run(ctx):
     suite_wide_and_histories(ctx)
     suite_prime_meridian(ctx)
     suite_given(ctx)
+    # data over +-180 on geographic CRSs in every form: with / without an EPSG code, with / without an area of use in the PROJ database
+    gpool = _geographic_pool(ctx)
+    suite_antimeridian(ctx, pool=gpool, n_clouds=len(gpool) * (1 if ctx.quick else 6), suite="antimeridian-crs")
